@@ -158,6 +158,22 @@ def Expr.WellFormedIn (σ : Env) (e : Expr) : Prop :=
   (∀ x ∈ e.operandNames, σ.lookup x = none ∨ ∃ body v, σ.lookup x = some body ∧ tokValue body = some v) ∧
   (∀ x ∈ e.names, x ≠ "defined")
 
+/-- **The grammar of well-formed conditions on tokens** (ISO C 6.6 restricted to the supported operators,
+    after macro replacement): `Gram k ts` = the token sequence `ts` derives from the nonterminal of binding
+    level `k` (0 = unary-expression, 1 = relational, 2 = equality, 3 = logical-AND, 4 = logical-OR =
+    the whole condition).  Binary levels are left-recursive (`l op r` with `l` at the operator's level and
+    `r` one level tighter), i.e. left-associative. -/
+inductive Gram : Nat → List CTok → Prop
+  | int (v : UInt64) : Gram 0 [.LiteralInt v]
+  | uint (v : UInt64) : Gram 0 [.LiteralIntUnsigned32 v]
+  | tru : Gram 0 [.True]
+  | fls : Gram 0 [.False]
+  | name (x : String) : Gram 0 [.Id x]
+  | not {ts : List CTok} : Gram 0 ts → Gram 0 (.ExclamationPoint :: ts)
+  | paren {ts : List CTok} : Gram 4 ts → Gram 0 (.LeftParen :: ts ++ [.RightParen])
+  | up {k : Nat} {ts : List CTok} : Gram k ts → Gram (k + 1) ts
+  | bin (op : Op) {l r : List CTok} : Gram op.level l → Gram (op.level - 1) r → Gram op.level (l ++ op.toks ++ r)
+
 /-! ### conditional groups -/
 
 inductive Pragma where | once | warning | unknown
